@@ -19,7 +19,7 @@ from ref import convref, pkgwriter
 ID = 'C07'
 LEVEL = 'model_checking'
 TECHNIQUE = 'deviation-bounded enumeration of package configurations (+ all table permutations for <=4 models) through the real convolve_model_dir and Fitter, against exact per-model sums and across the two formats'
-LEVEL_TEXT = ('Package configurations within 2 (quick) / 3 (thorough) deviations over number of models (1..8), apertures (1..5), parameter-table permutation, SED file-name order, '
+LEVEL_TEXT = ('Package configurations within 2 (quick) / 3 (thorough) deviations over number of models (1..8; 140 / 300 on five / nine re-ordering configurations), apertures (1..5), parameter-table permutation, SED file-name order, '
               'directory-listing order, spectral order, number of filters per call and resolved-model removal, plus every permutation of the parameter table for up to 4 models: '
               'each configuration is built in both formats from the same SEDs, convolved by the real code, and every row of every output file is compared with the exact sum of '
               'F*R (and quadrature error) for the model the row names; row order, FILTWAV and apertures are checked; both formats must give equal files and the four '
@@ -29,7 +29,7 @@ LEVEL_NOTE = ('Cell values encode (model, aperture, wavelength); exact rational 
 RULE = ("cases: package configurations; executions: convolve_model_dir on both formats (+ memmap variants), every output row compared, then Fitter.fit on 4 variants x sources; "
         "non-trivial = distinct configurations with >= 2 models")
 ASSUMPTIONS = ["all SEDs of a package share the wavelength grid", "finite value alphabets"]
-REQUIRED_CLASSES = ['permuted-table', 'filenames-disagree-with-model-names', 'listing-reversed', 'sed-wav-ascending', 'three-filters', 'single-model', 'eight-models',
+REQUIRED_CLASSES = ['more-than-128-models', 'permuted-table', 'filenames-disagree-with-model-names', 'listing-reversed', 'sed-wav-ascending', 'three-filters', 'single-model', 'eight-models',
                     'five-apertures', 'formats-compared', 'fits-compared', 'remove-resolved', 'all-permutations-4', 'apertures-in-other-unit', 'seds-in-subdirs-or-gz', 'parameters-gz', 'seds-stored-in-Jy', 'seds-on-different-grids', 'single-real-aperture', 'error-column-in-other-unit', 'convolve-after-listing']
 TIMEOUT = {'quick': 600, 'thorough': 3000}
 
@@ -43,6 +43,12 @@ def setup(tier, seed):
     for n in (2, 3, 4):
         for p in itertools.permutations(range(n)):
             out.append({'fam': 'allperm', 'n_models': n, 'n_ap': 2, 'perm': list(p), 'fnames': 'same', 'listing': 'sorted', 'sord': 'wav-desc', 'nfilt': 1, 'rr': False, 'ap_unit': 'AU', 'layout': 'flat', 'par_gz': False, 'funit': 'mJy', 'grids': 'same', 'single_ap_real': False, 'err_unit': 'same'})
+    # scale: 140 (thorough: 300) models -- row indices beyond 127 / 255, names filling the 30-character column -- on the default
+    # configuration and with one deviation on each axis that re-orders something
+    default = {k: v[0] for k, v in AXES.items()}
+    for dev in ([{}, {'perm': 'reversed'}, {'perm': 'rotated', 'fnames': 'reversed'}, {'listing': 'reversed', 'layout': 'subdir+gz'}, {'sord': 'wav-asc', 'nfilt': 3}]
+                + ([] if tier == 'quick' else [{'perm': 'swap01', 'par_gz': True}, {'rr': True}, {'n_ap': 5}, {'n_ap': 1}])):
+        out.append(dict(default, fam='big', n_models=140 if tier == 'quick' else 300, **dev))
     return {'tier': tier, 'seed': seed, 'cases': out}
 
 
@@ -111,7 +117,13 @@ def run_case(ctx, case, rec, d):
     n_wav = 7
     w_asc = np.array([0.9, 1.6, 2.9, 5.2, 9.4, 17.0, 30.0])
     wav_file = w_asc if case['sord'] == 'wav-asc' else w_asc[::-1]
-    base_names = ['sd_q', 'sd_b', 'sd_x', 'sd_a', 'sd_m', 'sd_c', 'sd_z', 'sd_k'][:n_models]
+    base_names = ['sd_q', 'sd_b', 'sd_x', 'sd_a', 'sd_m', 'sd_c', 'sd_z', 'sd_k']
+    for i in range(8, n_models):        # scale: scrambled names, every seventh filling the 30-character name column
+        tag = '%05d' % ((i * 7919 + 13) % 100003)
+        base_names.append(('sd_w_%s' % tag) if i % 7 else ('sd_long_name_filling_30c_%s' % tag))
+    base_names = base_names[:n_models]
+    if n_models > 128:
+        rec.cls('more-than-128-models')
     perm = _perm(case['perm'], n_models)
     table_order = [base_names[i] for i in perm]
     ap = None if n_ap == 1 else 100.0 * 4.0 ** np.arange(n_ap)
